@@ -1,6 +1,7 @@
 // C05 harness: the host call/return protocol on the real engine (injected clock).
 //   ops:  C <lbl> <np> <prog> <args>   host call: a fresh script with the label `go` declaring np
-//                                      parameters is compiled, an Event with the args is filled and
+//                                      parameters (np = a number: local.p1.., or @t.t.. with t = <j> for
+//                                      local.p<j> | v<k> for a variable of the level / game / parm object) is compiled, an Event with the args is filled and
 //                                      ScriptMaster::ExecuteThread(script, event, label) is called
 //                                      (label = "go" when lbl=1, a missing label when lbl=0).  The
 //                                      Event becomes the next record.
@@ -11,7 +12,8 @@
 //                                      P<w<n>|p>(:<d><W<e>|U|D>)* a helper is started that waits d ms and
 //                                      then orders this thread `wait e` (W) / `pause` (U) / `delete` (D), ...;
 //                                      then this thread does `wait n` or `pause`
-//                                      final: e<val> end <literal> | r<j> end local.p<j> | L end local.sr
+//                                      final: e<val> end <literal> | r<j> end local.p<j> | g<k> end of a
+//                                      level/game/parm variable | L end local.sr
 //                                      (the sub-thread's result, possibly still pending) | x end |
 //                                      o fall off the end | k<d> pause, a helper deletes the thread
 //                                      after d ms | q<d> wait 50 ms, a helper deletes the thread
@@ -176,6 +178,8 @@ static std::vector<std::string> split(const std::string& s, char sep)
     return r;
 }
 
+static std::string levelVar(int k);
+
 static std::string waitText(int ms) { char b[64]; std::snprintf(b, sizeof b, "wait %.3f\n", ms / 1000.0); return b; }
 
 // one thread of the call: level 0 is the host-started thread (label go), level i > 0 the sub-thread s<i>
@@ -254,6 +258,7 @@ static std::string levelBody(const std::string& lvl, int index, bool hasNext, st
         case 'e': { const std::string lit = literal(st.substr(1), pre); body += pre + "end " + lit + "\n"; ended = true; break; }
         case 'r': body += "end local.p" + std::to_string(d) + "\n"; ended = true; break;
         case 'L': body += "end local.sr\n"; ended = true; break;
+        case 'g': body += "end " + levelVar(d) + "\n"; ended = true; break;
         case 'x': body += "end\n"; ended = true; break;
         case 'o': if (index > 0) { body += "end\n"; ended = true; } break;   // only the last label can fall off the end
         default: break;
@@ -264,8 +269,29 @@ static std::string levelBody(const std::string& lvl, int index, bool hasNext, st
     return body;
 }
 
-static std::string program(int np, const std::string& prog)
+// the persistent variable number k: a variable of the level object
+static std::string levelVar(int k)
 {
+    return "level.q" + std::to_string(k);
+}
+
+// the declared parameters: "3" = local.p1 local.p2 local.p3; "@1.v0.1" = local.p1 level.q0 local.p1
+static std::vector<std::string> paramNames(const std::string& np)
+{
+    std::vector<std::string> r;
+    if (!np.empty() && np[0] == '@') {
+        for (const std::string& t : split(np.substr(1), '.'))
+            r.push_back(t[0] == 'v' ? levelVar(std::atoi(t.c_str() + 1)) : "local.p" + t);
+    } else {
+        for (int i = 1; i <= std::atoi(np.c_str()); ++i) r.push_back("local.p" + std::to_string(i));
+    }
+    return r;
+}
+
+static std::string program(const std::string& npTok, const std::string& prog)
+{
+    const std::vector<std::string> names = paramNames(npTok);
+    const int np = int(names.size());
     std::string helpers, subs;
     int nh = 0;
     std::vector<std::string> levels = split(prog, '/');
@@ -275,10 +301,10 @@ static std::string program(int np, const std::string& prog)
         bodies.push_back(levelBody(levels[i], int(i), i + 1 < levels.size(), helpers, nh));
     for (size_t i = levels.size(); i-- > 1;) subs += "s" + std::to_string(i) + ":\n" + bodies[i];
     std::string src = "never:\nend\n" + helpers + subs + "go";
-    for (int i = 1; i <= np; ++i) src += " local.p" + std::to_string(i);
+    for (int i = 1; i <= np; ++i) src += " " + names[i - 1];
     src += ":\n";
     for (int i = 1; i <= np; ++i)
-        src += "println \"P\" " + std::to_string(i) + " (typeof local.p" + std::to_string(i) + ") local.p" + std::to_string(i) + "\n";
+        src += "println \"P\" " + std::to_string(i) + " (typeof " + names[i - 1] + ") " + names[i - 1] + "\n";
     src += bodies[0];
     return src;
 }
@@ -355,8 +381,8 @@ int main()
                 std::string c, call = "-";
                 is >> c;
                 if (c == "C") {
-                    int lbl, np;
-                    std::string prog, args;
+                    int lbl;
+                    std::string np, prog, args;
                     is >> lbl >> np >> prog >> args;
                     Event* ev = new Event();
                     size_t nargs = 0;
